@@ -4373,6 +4373,77 @@ def spec_tree_traversal(ctx, make_exe):
             post(exe, s2, z3.BoolVal(okr and got_top == top), f.name, "the result is the root's result (%s, want %s)" % (got_top, top))
     return {"function": f.name, "paths": total}
 
+# ----------------------------------------------------------------------------
+# SPEC: the string route and the tagged-line route render a line to the same characters (RenderLine)
+# ----------------------------------------------------------------------------
+
+def spec_line_routes_agree(ctx, make_exe):
+    import summaries
+    orig = summaries.summarize
+    fs = the([g for g in ctx.find(r"::to_string$") if g.args and "RenderLine" in g.args[0][1]], "RenderLine::to_string")
+    ft = the([g for g in ctx.find(r"::into_tagged_line$") if g.args and "RenderLine" in g.args[0][1]], "RenderLine::into_tagged_line")
+    total = 0
+    for kind in ("Text", "Line"):
+        res = {}
+        for f in (fs, ft):
+            exe = make_exe(loop_bound=4)
+            if kind == "Text":
+                line = VAgg("RenderLine::Text", "Text", [VOpaque("TaggedLine", "the_line")])
+            else:
+                line = VAgg("RenderLine::Line", "Line", [_agg(ctx, "BorderHoriz", tag=VOpaque("T", "border_tag"), segments=VOpaque("Vec<BorderSegHoriz>", "segs"))])
+            pushed = []
+
+            def nm(exe_, st_, v):
+                while isinstance(v, VRef):
+                    v = exe_.deref(st_, v)
+                return v
+
+            def summ(exe_, st_, f_, bb_, callee, args, dest_ty, pushed=pushed):
+                c = callee.strip()
+                if re.search(r"TaggedLine::<.*>::to_string$", c):
+                    v = nm(exe_, st_, args[0])
+                    return [(st_, VOpaque("String", "string_of:" + getattr(v, "name", "?")))]
+                if re.search(r"BorderHoriz::<.*>::to_string$", c):
+                    v = nm(exe_, st_, args[0])
+                    segs = v.fields[v.names.index("segments")] if isinstance(v, VAgg) and v.names else v
+                    return [(st_, VOpaque("String", "string_of:" + getattr(segs, "name", "?")))]
+                if re.search(r"TaggedLine::<.*>::new$", c):
+                    return [(st_, VOpaque("TaggedLine", "fresh_line"))]
+                if re.search(r"TaggedLine::<.*>::push$", c):
+                    pushed.append(args[1])
+                    return [(st_, VUnit())]
+                if re.search(r"as Clone>::clone$", c):
+                    v = nm(exe_, st_, args[0])
+                    return [(st_, VOpaque("T", "clone_of:" + getattr(v, "name", "?")))]
+                return orig(exe_, st_, f_, bb_, callee, args, dest_ty)
+            summaries.summarize = summ
+            try:
+                outs = exe.run(f.name, {1: (VRef("val", line) if f is fs else line)}, State())
+            finally:
+                summaries.summarize = orig
+            total += len(outs)
+            if len(outs) != 1:
+                raise Inconclusive("%s: expected one path for a %s line, got %d" % (f.name[-20:], kind, len(outs)))
+            res[f.name] = (exe, outs[0], list(pushed))
+        exe_s, (s_s, ret_s), _ = res[fs.name]
+        exe_t, (s_t, ret_t), pushed_t = res[ft.name]
+        sname = getattr(ret_s, "name", None)
+        if kind == "Text":
+            post(exe_s, s_s, z3.BoolVal(sname == "string_of:the_line"), fs.name, "Text: the string route prints the tagged line")
+            post(exe_t, s_t, z3.BoolVal(getattr(ret_t, "name", None) == "the_line" and not pushed_t), ft.name, "Text: the tagged route hands out the same line unchanged")
+        else:
+            post(exe_s, s_s, z3.BoolVal(sname == "string_of:segs"), fs.name, "Line: the string route prints the rule")
+            ok = len(pushed_t) == 1 and isinstance(pushed_t[0], VAgg) and pushed_t[0].variant == "Str"
+            st_name = tag_name = None
+            if ok:
+                ts = pushed_t[0].fields[0]
+                st_name = getattr(ts.fields[ts.names.index("s")], "name", None)
+                tag_name = getattr(ts.fields[ts.names.index("tag")], "name", None)
+            post(exe_t, s_t, z3.BoolVal(ok and st_name == sname), ft.name, "Line: the tagged route holds exactly the string the string route prints (%s vs %s)" % (st_name, sname))
+            post(exe_t, s_t, z3.BoolVal(tag_name == "clone_of:border_tag"), ft.name, "Line: the rule keeps its own annotation")
+            post(exe_t, s_t, z3.BoolVal(getattr(ret_t, "name", None) == "fresh_line"), ft.name, "Line: the result is the line that was filled")
+    return {"functions": [fs.name, ft.name], "paths": total}
+
 
 ALL = [
     Spec("table_col_width", ["C06", "C02", "C01"], spec_table_col_width,
@@ -4602,6 +4673,11 @@ ALL = [
          assumptions=["process_node, the hooks and the reducers are scripted and observed; they succeed",
                       "Box / Vec / vec![x] by contract"],
          replay=lambda fd, vals, info: {"harness": "m_ol_numbering", "values": [le_bytes(1, 8), le_bytes(3, 8)]}),
+    Spec("line_routes_agree", ["C10"], spec_line_routes_agree,
+         functions=["RenderLine::to_string", "RenderLine::into_tagged_line"],
+         bounds="a text line and a rule",
+         assumptions=["TaggedLine::to_string / BorderHoriz::to_string are observed (same callee on the same value gives the same string)"],
+         replay=lambda fd, vals, info: {"harness": "m_routes_width", "values": [[0]]}),
     Spec("link_footnotes", ["C08"], spec_link_footnotes,
          functions=["TextRenderer::start_link", "TextRenderer::end_link"],
          bounds="0-2 links already recorded; footnote flag symbolic",
